@@ -1,0 +1,6 @@
+//! Verification hooks (cargo feature `verif-hooks`, off by default).
+//!
+//! Thin, add-only wrappers that expose crate-internal components to the external
+//! verification harness in `/verif/harness` using plain data types only. Nothing here is
+//! compiled unless the feature is enabled.
+#![allow(missing_docs, dead_code, clippy::all)]
